@@ -61,3 +61,60 @@ func VerifC05_CanaryStableFinalizeResumesDeployment() {
 		verifrt.Assert(get("spec", "paused") == "false", "C05.canarystable.finalize.unpaused")
 	}
 }
+
+// VerifC07_CanaryStableFinalizeWaitsOnlyWhenAsked: the stable Deployment's Finalize reports "not finished, come again"
+// (an error, which keeps the BatchRelease in Finalizing) only when the plan asks to wait for the resume
+// (finalizingPolicy WaitResume) and the Deployment the API server returned from the patch is not fully upgraded yet.
+// With any other policy — Immediate, or the field left empty, which the API documents as Immediate and which is what a
+// release deleted mid-plan carries — it never waits: with batchPartition still set the same patch leaves the Deployment
+// paused, so a wait there is a wait nothing will ever end.
+func VerifC07_CanaryStableFinalizeWaitsOnlyWhenAsked() {
+	R := int32(verifrt.IntRange("R", 1, 1000))
+	d := &apps.Deployment{ObjectMeta: metav1.ObjectMeta{Namespace: "ns", Name: "w", Generation: 3}}
+	d.Spec.Replicas = &R
+	d.Spec.Paused = true
+	d.Status.Replicas = int32(verifrt.IntRange("st.replicas", 0, 1000))
+	d.Status.UpdatedReplicas = int32(verifrt.IntRange("st.updated", 0, 1000))
+	d.Status.AvailableReplicas = int32(verifrt.IntRange("st.available", 0, 1000))
+	verifrt.Assume(d.Status.UpdatedReplicas <= d.Status.Replicas && d.Status.AvailableReplicas <= d.Status.Replicas)
+	cli := &symclient.Client{}
+	// the API server answers a patch with the patched object
+	cli.ApplyFn = func(w symclient.Write) {
+		out, ok := w.Obj.(*apps.Deployment)
+		if !ok || w.Verb != "patch" {
+			return
+		}
+		paused, _ := verifrt.JSONGet(w.Body, "spec", "paused")
+		d.DeepCopyInto(out)
+		out.Spec.Paused = paused == "true"
+	}
+	key := types.NamespacedName{Namespace: "ns", Name: "w"}
+	rc := &realController{realStableController: newStable(cli, key), realCanaryController: newCanary(cli, key)}
+	rc.stableObject = d
+	rc.stableInfo = util.ParseWorkload(d)
+	release := &v1beta1.BatchRelease{TypeMeta: metav1.TypeMeta{APIVersion: "rollouts.kruise.io/v1beta1", Kind: "BatchRelease"},
+		ObjectMeta: metav1.ObjectMeta{Namespace: "ns", Name: "br", UID: "uid-1"}}
+	policy := []v1beta1.FinalizingPolicyType{"", v1beta1.ImmediateFinalizingPolicyType, v1beta1.WaitResumeFinalizingPolicyType}[verifrt.IntRange("finalizingPolicy", 0, 2)]
+	release.Spec.ReleasePlan.FinalizingPolicy = policy
+	keep := verifrt.Bool("finalize.keepPartition")
+	if keep {
+		p := int32(1)
+		release.Spec.ReleasePlan.BatchPartition = &p
+	}
+	// the Rollout controller sets WaitResume together with batchPartition = nil (finalizingBatchRelease)
+	verifrt.Assume(!(policy == v1beta1.WaitResumeFinalizingPolicyType && keep))
+	err := rc.realStableController.Finalize(release)
+	if policy != v1beta1.WaitResumeFinalizingPolicyType {
+		verifrt.Cover("no-wait")
+		verifrt.Assert(err == nil, "C07.canarystable.finalize.noWaitUnlessThePlanAsksForIt")
+		return
+	}
+	verifrt.Cover("wait-resume")
+	upgraded := d.Status.Replicas == d.Status.UpdatedReplicas && d.Status.AvailableReplicas >= d.Status.Replicas
+	if upgraded {
+		verifrt.Assert(err == nil, "C07.canarystable.finalize.noWaitOnceUpgraded")
+	}
+	if d.Status.Replicas != d.Status.UpdatedReplicas {
+		verifrt.Assert(err != nil, "C07.canarystable.finalize.waitsWhileNotUpgraded")
+	}
+}
